@@ -613,7 +613,7 @@ class Performance(object):
         self.performedparts is unique (i.e., that a track number does not appear
         in multiple `PerformedPart` instances)
         """
-        unique_track_ids = list(
+        unique_track_ids = sorted(
             set(
                 [(i, n.get("track", -1)) for i, pp in enumerate(self) for n in pp.notes]
                 + [
